@@ -644,9 +644,64 @@ def _cases(ctx):
     return cases
 
 
+_REUSE_SRC = """
+def helper(plan, probes, probe, fn):
+    return (probes.append(probe()), plan.call(fn))[1]
+
+def mid(plan, probes, probe, fn):
+    return helper(plan, probes, probe, fn)
+
+def build(plan, probes, probe, fn, n):
+    a = mid(plan, probes, probe, fn)
+    b = mid(plan, probes, probe, fn)
+    c = helper(plan, probes, probe, fn)
+    return [a, b, c][n]
+
+def build_loop(plan, probes, probe, fn, n):
+    out = []
+    for _ in range(3):
+        out.append(helper(plan, probes, probe, fn))
+    out.append(mid(plan, probes, probe, fn))
+    return out[n]
+"""
+
+
+def reuse_cases(ctx=None, replay=None):
+    """The SAME helper functions invoked several times, from different lines and depths, within one process (frames of
+    finished invocations are freed and their addresses reused): every created call keeps the chain of ITS OWN creation."""
+    max_depth = tbmod.MAX_TRACEBACK_DEPTH
+    ns = {}
+    exec(compile(_REUSE_SRC, "/virtual/c19/reuse_mod.py", "exec"), ns)
+    viol = []
+    cases = [tuple(replay["reuse_case"])] if replay else [(b, n) for b in ("build", "build_loop") for n in range(3 if b == "build" else 4)]
+    for builder, n in cases:
+        plan, probes = Plan(), []
+
+        def boom():
+            raise ValueError("boom")
+        node = ns[builder](plan, probes, probe, boom, n)
+        try:
+            uberjob.run(plan, output=node, progress=None)
+            err = None
+        except uberjob.CallError as e:
+            err = e
+        if err is None:
+            viol.append({"property": "C19", "what": "the failing call did not make run raise CallError", "reuse_case": [builder, n]})
+            continue
+        user = [f for f in probes[n] if not f[1].startswith(UBERJOB_DIR)]
+        want = expected_chain(user, max_depth)
+        got = chain_list(err.call.stack_frame)
+        if got != want:
+            viol.append({"property": "C19", "what": f"call #{n} created through helpers that were invoked several times ({builder}): symbolic "
+                         f"traceback is {got[:4]}, its creation stack was {want[:4]}", "reuse_case": [builder, n], "replay_fn": "reuse"})
+            break
+    return viol
+
+
 def explore(ctx):
     max_depth = tbmod.MAX_TRACEBACK_DEPTH
     violations, disagreements, reqs = [], [], []
+    violations += reuse_cases(ctx)
     classes = set()
     cases = _cases(ctx)
     for case in cases:
@@ -713,6 +768,9 @@ def search(ctx, broken):
 
 def replay(ctx, payload):
     w = payload.get("witness", payload)
+    if w.get("replay_fn") == "reuse":
+        v = reuse_cases(replay=w)
+        return v[0]["what"] if v else None
     if w.get("known") == "F5" or "case" not in w:
         return _f5_witness()
     case = w["case"]
